@@ -9,7 +9,7 @@ TRUSTED_COMMON = [
 
 class Prop:
     def __init__(self, pid, streams, nontrivial, rule, quick_n, thorough_n, trusted=(), assumptions=(), partial=None,
-                 module=None):
+                 module=None, pre=()):
         self.id = pid
         self.streams = streams          # list of (name, generator, weight)
         self.nontrivial = nontrivial    # function(case) -> bool
@@ -19,6 +19,7 @@ class Prop:
         self.assumptions = list(assumptions)
         self.partial = partial
         self.module = module or ("Mltwist.Props." + pid)
+        self.pre = list(pre)
 
 
 def has(*tags):
